@@ -44,18 +44,30 @@ impl Eq for Fun {}
 
 impl DataAccessDyn for Fun {
     fn borrows(&self) -> TypeIds {
-        let mut ids = TypeIds::new();
-        for &k in &self.rd {
-            ids.push(type_id_of(k));
-        }
-        ids
+        type_ids_of(self.fid, &self.rd)
     }
 
     fn borrow_muts(&self) -> TypeIds {
-        let mut ids = TypeIds::new();
-        for &k in &self.wr {
-            ids.push(type_id_of(k));
+        type_ids_of(self.fid, &self.wr)
+    }
+}
+
+/// The list is built the way callers of the library build theirs: pushed one by one (inline up to 8
+/// entries), or -- for every third payload identity -- converted from a `Vec` with spare capacity,
+/// which leaves even a short list heap-backed (`spilled()`).
+fn type_ids_of(fid: u64, ks: &[usize]) -> TypeIds {
+    match fid % 3 {
+        1 => {
+            let mut v = Vec::with_capacity(ks.len() + 12);
+            v.extend(ks.iter().map(|&k| type_id_of(k)));
+            TypeIds::from_vec(v)
         }
-        ids
+        _ => {
+            let mut ids = TypeIds::new();
+            for &k in ks {
+                ids.push(type_id_of(k));
+            }
+            ids
+        }
     }
 }
